@@ -24,9 +24,15 @@
                            call, after the File Checksum Failure of its verification, and handled as configured:
                            CANCEL completes the cancelled transaction in the same call (Finished PDU iff closure,
                            Transaction-Finished, file deleted iff disposition-on-cancellation), ABANDON drops it, both
-                           leave the handler idle; any other handler (IGNORE, SUSPEND) only reports: counter and timer
-                           stay as they are (so the next call declares the fault again, see ex_limit_ignored_redeclared).
-   Hypotheses, all satisfiable (proofs/LateDataProofs.v: ex_hyps_completes, ex_hyps_limit, with the evaluated runs
+                           leave the handler idle; IGNORE reports and carries on (F34 repair): the expiry is counted
+                           and the timer restarted, the handler stays busy in the check-limit step; any other handler
+                           (SUSPEND) only reports: counter and timer stay as they are.
+   c13_late_data_limit_ignored_once  (c') IGNORE: the ignored fault is declared ONCE - whatever the calls after it deliver,
+                           as long as the restarted timer has not expired they send nothing and declare nothing: the log
+                           gets nothing but their File-Segment-Recv indications, counter and timer stay
+                           (ex_limit_ignored_once; the next declaration comes one interval later,
+                           ex_limit_ignored_next_expiry).
+   Hypotheses, all satisfiable (proofs/LateDataProofs.v: ex_hyps_completes, ex_hyps_limit, ex_hyps_limit_ignored, with the evaluated runs
    ex_completes_at_poll, ex_completes_with_last_tile, ex_waits, ex_limit) and all needed: unacknowledged mode; CRC-32 or
    CRC-32C; File Checksum Failure handled by IGNORE (the default table, props/C13.v c13_default_table; any other handler
    ends the check-limit mechanism at the EOF); 0 < check timer interval (ex_zero_interval: with 0 the EOF call itself
@@ -215,9 +221,48 @@ Theorem c13_late_data_limit :
     (if (fh =? FH_CANCEL) || (fh =? FH_ABANDON)
      then d_state s' = ST_IDLE /\ d_step s' = DS_IDLE /\ d_p s' = fresh_params
      else d_state s' = ST_BUSY /\ d_step s' = DS_RECV_WITH_CHECK_LIMIT /\
-          p_check_count (d_p s') = expiries ms 0 pre /\
-          p_check_timer (d_p s') = Some (now_d s' - fst fin - elapsed ms 0 pre, ms)) /\
+          if fh =? FH_IGNORE
+          then p_check_count (d_p s') = expiries ms 0 pre + 1 /\ p_check_timer (d_p s') = Some (now_d s', ms)
+          else p_check_count (d_p s') = expiries ms 0 pre /\
+               p_check_timer (d_p s') = Some (now_d s' - fst fin - elapsed ms 0 pre, ms)) /\
     lookup (fs_d s') (dest_name fs sn dn) =
       (if (fh =? FH_CANCEL) && r_disposition r then None else Some (File (written (received (early ++ pre ++ [fin]))))).
 Proof. exact late_data_limit. Qed.
 Print Assumptions c13_late_data_limit.
+
+(* (c') *)
+Theorem c13_late_data_limit_ignored_once :
+  forall (c : lcfg) (r : rcfg) (hd : hdr) (fs : tree) (closure : bool) (ck msize : Z) (sn dn : path) (msgs : list Z)
+         (data cks : bytes) (size ms : Z) (early pre : list item) (fin : item) (post : list item) (fl : option (Z * Z)) (t0 t1 : Z),
+  h_dir hd = TOWARDS_RECEIVER -> h_mode hd = UNACKED -> h_dst hd = l_id c ->
+  get_remote (l_remotes c) (h_src hd) = Some r ->
+  ck = CK_CRC32 \/ ck = CK_CRC32C ->
+  get_fault_handler (l_faults c) C_CHECKSUM_FAILURE = Some FH_IGNORE ->
+  get_fault_handler (l_faults c) C_CHECK_LIMIT = Some FH_IGNORE ->
+  l_check_ms c = ms -> 0 < ms ->
+  dest_writable fs (dest_name fs sn dn) ->
+  size = zlen data -> calculate_checksum ck (Some data) size 4096 = Ok cks ->
+  Forall (slice_of data) (received (early ++ pre ++ [fin])) ->
+  no_collision ck size cks (received (early ++ pre ++ [fin])) ->
+  missing size (received (early ++ pre ++ [fin])) ->
+  expiries ms 0 pre + 1 = r_check_limit r ->
+  ms <= elapsed ms 0 pre + fst fin ->
+  Forall (slice_of data) (received post) ->
+  expiries ms 0 post = 0 ->
+  let prog := extent (map span (received (early ++ pre ++ [fin]))) in
+  exists s' lg,
+    calls_d ((t0, Some (PMetadata hd closure ck msize (Some (sn, dn)) msgs)) :: map (item_call hd) early ++
+             (t1, Some (PEof hd C_NO_ERROR cks size fl)) :: map (item_call hd) ((pre ++ [fin]) ++ post)) (dst_fresh c fs) =
+      (s', Ok ([] :: map (fun _ => []) early ++ [] :: map (fun _ => []) ((pre ++ [fin]) ++ post))) /\
+    log_d s' = flat_map (seg_events c (h_src hd) (h_seq hd)) (rev post) ++
+               EvFault FH_IGNORE (h_src hd) (h_seq hd) C_CHECK_LIMIT prog ::
+               EvFault FH_IGNORE (h_src hd) (h_seq hd) C_CHECKSUM_FAILURE prog ::
+               seg_events c (h_src hd) (h_seq hd) fin ++ lg /\
+    quiet_log (h_src hd) (h_seq hd) (1 + expiries ms 0 pre) lg /\
+    d_state s' = ST_BUSY /\ d_step s' = DS_RECV_WITH_CHECK_LIMIT /\ d_queue s' = [] /\ d_ready s' = 0 /\
+    p_check_count (d_p s') = expiries ms 0 pre + 1 /\
+    p_check_timer (d_p s') = Some (now_d s' - elapsed ms 0 post, ms) /\
+    p_progress (d_p s') = extent (map span (received ((early ++ pre ++ [fin]) ++ post))) /\
+    lookup (fs_d s') (dest_name fs sn dn) = Some (File (written (received ((early ++ pre ++ [fin]) ++ post)))).
+Proof. exact late_data_limit_ignored_once. Qed.
+Print Assumptions c13_late_data_limit_ignored_once.
